@@ -20,7 +20,7 @@ import (
 // the 50 ms read period of launchLanceroReader is made settable by the build (text patch); same loop
 var lanceroReadPeriod = 100 * time.Microsecond
 
-const v04Frames = 14
+const v04Frames = 20
 
 type v04Geom struct{ ncols, nrows int }
 
@@ -554,14 +554,15 @@ func TestVerifC04(t *testing.T) {
 			// family 4: a gap of lost bytes
 			r.DFSSharded(fmt.Sprintf("gap/%dx%d/start%d", g.ncols, g.nrows, startOff), -1, 2, func(x *vexp.X) vexp.Result {
 				s := &v04Script{g: g, startOff: startOff, ext: noExt(g), mixAt: -1}
-				s.avail = []int{4*fs - 4*startOff, 8*fs - 4*startOff, end}
+				// The read before the loss ends exactly on the frame boundary where the loss begins and is long
+				// enough (>= 3 frames) to be consumed completely, so that the lost bytes really are the first
+				// bytes of a later read; at least two productive reads follow.
+				s.avail = []int{4*fs - 4*startOff, 8*fs - 4*startOff, 12*fs - 4*startOff, 16*fs - 4*startOff, end}
+				k := 1
 				if x.Choose(2) == 1 {
-					s.avail = []int{4*fs - 4*startOff, 6*fs - 4*startOff + 4, 9*fs - 4*startOff, end}
+					s.avail = []int{4*fs - 4*startOff, 7*fs - 4*startOff + 4, 11*fs - 4*startOff, 15*fs - 4*startOff, end}
+					k = 2
 				}
-				// the lost bytes are the first bytes that would have arrived in a later read (the driver's ring
-				// overflowed between two reads); length 1 word .. 2 frames + 1 word, not a whole number of frames
-				// (such a loss leaves the frame structure intact and cannot be seen in the data)
-				k := 1 + x.Choose(len(s.avail)-2)
 				gl := []int{1, 2, words - 1, words + 1, 2*words - 1, 2*words + 1}[x.Choose(6)]
 				if gl < 1 || gl%words == 0 {
 					return vexp.Result{Outcome: "gap-not-observable"}
@@ -576,7 +577,7 @@ func TestVerifC04(t *testing.T) {
 				if s.avail[len(s.avail)-1] > end {
 					return vexp.Result{Outcome: "gap-too-late"}
 				}
-				s.ext[9][0] = true
+				s.ext[15][0] = true
 				return v04RunScript(x, s)
 			})
 		}
